@@ -62,6 +62,9 @@ def clean(traces):
     """drop the harness's private keys"""
     def c(x):
         if isinstance(x, dict):
+            if x.get('k') in ('info', 'error', 'text', 'crash', 'warning', 'errtext') and isinstance(x.get('text'), str) and len(x['text']) > 300:
+                # free-form output is not compared by the specification; a tool gone wrong can print megabytes of it
+                x = dict(x, text=x['text'][:300])
             return {k: c(v) for k, v in x.items() if not k.startswith('_') and k not in ('text_full',)}
         if isinstance(x, list):
             return [c(v) for v in x]
